@@ -149,6 +149,8 @@ func (te *TwitterExtractor) getTweetIdFromURL(tweetURL string) string {
 		tweetURL = "http:" + tweetURL
 	}
 
+	// The fragment is not part of the path (ParseRequestURI does not split it off).
+	tweetURL, _, _ = strings.Cut(tweetURL, "#")
 	parsedURL, err := nurl.ParseRequestURI(tweetURL)
 	if err != nil {
 		return ""
